@@ -69,9 +69,22 @@ class ContractInterp(Interp):
             heap, ghost = self.st.heap, self.st.ghost
             self.st.heap, self.st.ghost = dict(self.old_state[0]), dict(self.old_state[1])
             try:
-                return self.eval(e.args[0], fr)
+                v = self.eval(e.args[0], fr)
+                snap = None
+                if isinstance(v, (VSeq, VSet, VMap, VList, VDict)):
+                    # reference collections: freeze the old content under a new reference
+                    snap = {sub: self.st.heap[(v.ref, sub)] for sub in ("seq", "set", "dom", "val", "items")
+                            if (v.ref, sub) in self.st.heap}
             finally:
                 self.st.heap, self.st.ghost = heap, ghost
+            if snap is not None:
+                import copy as _copy
+                v2 = _copy.copy(v)
+                v2.ref = self.st.new_ref()
+                for sub, content in snap.items():
+                    self.st.heap[(v2.ref, sub)] = content
+                return v2
+            return v
         if n == "implies":
             a = _b(self.truth(self.eval(e.args[0], fr)))
             if z3.is_false(z3.simplify(a)) or not self.st.feasible(a):
@@ -272,6 +285,7 @@ class ContractInterp(Interp):
 
     def contract_env(self, c: Contract, am: dict) -> dict:
         env = dict(am)
+        env.update({"arg_" + k: v for k, v in am.items()})
         for cn in c.clock:
             env[cn] = VInt(self.st.read_clock_us(), "dt")
         for k, expr in c.lets.items():
@@ -323,6 +337,8 @@ class ContractInterp(Interp):
                     st.assume(w)
             if take:
                 self.havoc(r.modifies, env)
+                for nm, (t, _w) in r.fresh.items():
+                    env[nm] = mk_sym(st, self.tenv, t, st.fresh_name(nm))
                 em2 = {}
                 for eff in r.effects:
                     evv = self.eval_spec_expr(eff[1], env, old)
